@@ -57,7 +57,8 @@ def main(tier, seed):
     crc7 = _crc7()
     res = core.Result()
 
-    kinds = [bytes, list, bytearray, tuple, lambda m: memoryview(bytes(m))]
+    # ... including one-shot iterables (an iterator over the bytes, a generator): the function only iterates its argument
+    kinds = [bytes, list, bytearray, tuple, lambda m: memoryview(bytes(m)), lambda m: iter(bytes(m)), lambda m: (b for b in bytes(m))]
 
     class Raised(int):
         pass
